@@ -124,8 +124,9 @@ def mapping_contract(rc: RuleCtx):
     inner = [st for st in loop.body if isinstance(st, ast.While)]
     if len(inner) != 1:
         raise AnalysisError("rdp.mapping: expected one inner while loop")
-    w = inner[0]
-    k = loop.body.index(w)
+    k = loop.body.index(inner[0])
+    from .common import normalise_while
+    w = normalise_while(fi, inner[0])
     i = ev.symbol(ivar)
     carried = [n for n in stored_names(w) if n in inits]
     numeric_carried = [n for n in stored_names(w) if isinstance(env.get(n), Rat)]
